@@ -5,14 +5,14 @@ root="$(cd "$(dirname "$0")/.." && pwd)"
 cd "$root"
 for p in selftest/mutants/C*.patch; do
   id=$(basename "$p" | cut -c1-3)
-  r=$("$root/tools/selftest.sh" "$id" "$p" "$tier" 2>&1 | grep -E "^(CAUGHT|MISSED|patch does not apply|repo dirty)" | tail -1)
+  r=$("$root/tools/selftest.sh" "$id" "$p" "$tier" 2>&1 | grep -aE "^(CAUGHT|MISSED|patch does not apply|repo dirty)" | tail -1)
   first=$(ls replays/$id 2>/dev/null | head -1)
   echo "selftest $id $(basename $p .patch): $r [$first]"
   rm -rf replays/$id
 done
 for d in seeded/*/*/; do
   id=$(echo "$d" | cut -d/ -f2); m=$(echo "$d" | cut -d/ -f3)
-  r=$("$root/tools/selftest.sh" "$id" "$d/patch.diff" "$tier" 2>&1 | grep -E "^(CAUGHT|MISSED|patch does not apply|repo dirty)" | tail -1)
+  r=$("$root/tools/selftest.sh" "$id" "$d/patch.diff" "$tier" 2>&1 | grep -aE "^(CAUGHT|MISSED|patch does not apply|repo dirty)" | tail -1)
   first=$(ls replays/$id 2>/dev/null | head -1)
   echo "seeded $id $m: $r [$first]"
   rm -rf replays/$id
